@@ -5,8 +5,50 @@ LEVEL = "proof"
 TRUSTED = ["count(seq, x) lemmas (effect of list operations on element counts; by induction, assumed)"]
 NOT_DECIDED = ["_convenience.replace_nodes_and_values is composite, not atomic by construction (the statement lists atomic mutators)"]
 BOUNDED = [{"name": "C06 short histories of public mutators, snapshot equality on raise (bounded, not a proof)",
-            "script": "bounded_ir.py", "args": ["--prop", "C06"]}]
+            "script": "bounded_ir.py", "args": ["--prop", "C06"]},
+           {"name": "C06 a sort rejected for a cycle (also confined to a nested graph) leaves every graph as it was (bounded)",
+            "script": "bounded_sort.py", "args": []},
+           {"name": "C06 rejected rename_values (single graph and across graphs) changes nothing (bounded)",
+            "script": "bounded_names.py", "args": []}]
 
 
 def build(eng, tier):
     ir_targets.build(eng, tier, "C06")
+    from . import C12
+    add_rename_target(eng)
+    C12.add_sort_target(eng)      # Graph.sort: ValueError exit => nothing changed (last target: switches to lenient mode)
+
+
+def add_rename_target(eng):
+    """convenience.rename_values: every ValueError / TypeError exit happens before the first IR store or IR-mutating call
+    (validation of ALL graphs' groups precedes the first pop): effect obligation in lenient mode."""
+    from pyvc.engine import Target
+    CONV = "onnx_ir._convenience"
+    fields = ["Value._name", "Value._graph", "Value._is_initializer", "Value._const_value", "Node._name"]
+    unchanged = "unchanged(%s)" % ", ".join(repr(f) for f in fields)
+
+    from pyvc.core import Exc, FnDecl
+    from pyvc.types import VOpaque
+
+    def ir_mutator(what):
+        def impl(e, p, args, kwargs, node):
+            # an IR mutation: the path is dirty from here on, the IR heap is arbitrary afterwards, and the call may raise
+            p.ghost["$ir_dirty"] = f"{what} at L{node.lineno}"
+            e.havoc_heap(p, None)
+            q = p.copy()
+            return [(p, VOpaque("result of " + what)), (q, Exc("AnyException", f"L{node.lineno}:{what}"))]
+        return impl
+
+    def setup(e, p, env):
+        e.lenient = True
+        e.functions["stdlib:_collections_abc.MutableMapping.pop"] = FnDecl("initializers.pop", "builtin", impl=ir_mutator("initializers.pop"))
+        e.functions["onnx_ir._graph_containers.GraphInitializers.add"] = FnDecl("initializers.add", "builtin", impl=ir_mutator("initializers.add"))
+        e.functions["onnx_ir._core.Value.name#setter"] = FnDecl("Value.name=", "builtin", impl=ir_mutator("Value.name setter"))
+    from pyvc.types import STR, TRef, TSeq
+    t = Target("rename_values", mod=CONV, qual="rename_values", params={"values": TSeq(TRef("Value")), "names": TSeq(STR)}, requires=[], ensures=[], setup=setup,
+               raises={"ValueError": [unchanged, "ir_clean()"], "TypeError": [unchanged, "ir_clean()"]}, raises_default=[], assert_mode="raise")
+    # unreachable under the parameter types of this target (sequences of Values / strs): the scalar-argument conveniences
+    t.dead = ["values = (values,)", "names = (names,)", "raise TypeError(f'name must be a string"]
+    t.local_containers = ("values", "names", "target_by_value", "ordered_pairs", "initializer_pairs_by_graph", "initializer_values_by_graph",
+                          "seen_targets", "renamed_initializers", "initializer_pairs")
+    eng.add_target(t)
